@@ -55,6 +55,8 @@ class Sched:
         self.monitors = []
         self.outcome = None
         self.names_count = itertools.count()
+        self.step_timeout = 30.0
+        self.stuck = None
 
     # ---- naming ---------------------------------------------------------
     def name_obj(self, obj, name):
@@ -156,7 +158,12 @@ class Sched:
             if self.trace is not None:
                 self.trace.append([st.name, st.pending[0], None, sorted(t.name for t in en), self.now])
             st.sem.release()
-            self.main_sem.acquire()
+            if not self.main_sem.acquire(timeout=self.step_timeout):
+                # the thread neither reached a scheduling point nor ended: it is blocked in a primitive the scheduler
+                # does not manage (a lock created by the code under test with the real threading module, say)
+                self.outcome = "stuck"
+                self.stuck = st.name
+                break
             for m in self.monitors:
                 m(self, st)
         return self.outcome
@@ -570,6 +577,27 @@ class Installed:
     def __exit__(self, *a):
         for k, v in self.saved.items():
             setattr(self.ao, k, v)
+
+
+class PatchedLocks:
+    """context manager: `RLock` / `Lock` names imported by the given modules become scheduler-aware locks, so a lock the
+    code under test creates at run time is a scheduling point too (and never blocks a managed thread for real)"""
+
+    def __init__(self, *modules):
+        self.modules = modules
+        self.saved = []
+
+    def __enter__(self):
+        for m in self.modules:
+            for name, repl in (("RLock", DRLock), ("Lock", DLock)):
+                if hasattr(m, name):
+                    self.saved.append((m, name, getattr(m, name)))
+                    setattr(m, name, repl)
+        return self
+
+    def __exit__(self, *a):
+        for m, name, old in self.saved:
+            setattr(m, name, old)
 
 
 # ---------------------------------------------------------------------------
